@@ -137,6 +137,15 @@ def r1_operator_tables(rule, root=None):
             rule.ok("both operand orders are rejected")
         else:
             rule.bad("cmp|both", "both bad_cmp_tree_dyn and bad_cmp_dyn_tree must be registered for every comparison operator", A.where(reg, loops[0]))
+    sigs = {}
+    for name in ("bad_cmp_tree_dyn", "bad_cmp_dyn_tree"):
+        f = A.find_fn(TREE, name, root=root)
+        tys = [str(p.get("ty") or "").replace(" ", "").split("::")[-1] for p in f["sig"]["inputs"] if "pat" in p]
+        sigs[name] = tuple(t_ for t_ in tys if t_ != "NativeCallContext")
+    if sorted(sigs.values()) == sorted([("Tree", "Dynamic"), ("Dynamic", "Tree")]):
+        rule.ok("the two rejecting overloads take (Tree, dynamic) and (dynamic, Tree): a comparison with the tree on either side is an error")
+    else:
+        rule.bad("cmp|signatures", "the rejecting comparison overloads have operand types %s; Rhai dispatches on them, so (Tree, Dynamic) and (Dynamic, Tree) must both exist - with one missing, `0 < tree` silently evaluates to false" % sorted(sigs.values()), "%s" % TREE)
     for name in ("bad_cmp_tree_dyn", "bad_cmp_dyn_tree"):
         f = A.find_fn(TREE, name, root=root)
         # every result of the function is an Err (whatever builds the message)
@@ -953,6 +962,117 @@ def r_reducer_arguments(rule, root=None):
         rule.bad("reducer|arguments", "the variadic reducer %s: `f(a, [b, c])` must build f(a, union(b, c)) like the Rust API does, not f(a, b, c)" % ("splices array arguments into its operand list" if splice else "does not convert each argument with Tree::from_dynamic"), SHAPES)
 
 
+
+TYPES_RS = "fidget-rhai/src/types.rs"
+
+
+def r_vector_operators(rule, root=None):
+    """script-side vec2 / vec3 arithmetic (what shape arguments are computed with): every overload applies the
+    operator to its operands in source order, a number being splatted on the side it was written on"""
+    d = A.load(TYPES_RS, root)
+    mdefs = {m["def"]: m for m in A.find(d["items"], "Macro") if m.get("def")}
+    if "register_binary" not in mdefs or "register_all" not in mdefs or "register_unary" not in mdefs:
+        rule.lost("register_binary! / register_unary! / register_all! in fidget-rhai/src/types.rs")
+        return
+    body = tok(mdefs["register_binary"]["tokens"])
+    ln = mdefs["register_binary"]["ln"]
+    rx = re.compile(r"\$engine\.register_fn\(\$rop,\|(?P<a>\w+):(?P<ta>[\w$]+),(?P<b>\w+):(?P<tb>[\w$]+)\|->\$ty\{(?:\$\(usestd::ops::\$op;\)\?)?(?P<body>[^{}]*)\}\);")
+    seen = set()
+    for m in rx.finditer(body):
+        a, b, ta, tb, e = m.group("a"), m.group("b"), m.group("ta"), m.group("tb"), m.group("body")
+        seen.add((ta, tb))
+        lhs = [re.escape(a)] if ta == "$ty" else [r"\$ty::from\(%sasf32\)" % re.escape(a)]
+        rhs = [re.escape(b)] if tb == "$ty" else [r"%sasf32" % re.escape(b), r"\$ty::from\(%sasf32\)" % re.escape(b)]
+        okb = any(re.fullmatch(l_ + r"\.\$base_fn\(" + r_ + r"\)", e) for l_ in lhs for r_ in rhs)
+        if okb:
+            rule.ok("(%s, %s) overload computes first.op(second)" % (ta, tb), file=TYPES_RS, line=ln)
+        else:
+            rule.bad("vecop|%s,%s" % (ta, tb), "the (%s, %s) overload of the vector operators computes `%s`; the operands must stay in source order: (first%s).$base_fn(second%s) - `3 - vec2(1, 2)` is not `vec2(1, 2) - 3`" % (ta, tb, e, "" if ta == "$ty" else " splatted", "" if tb == "$ty" else " as f32"), "%s:%s" % (TYPES_RS, ln))
+    want = {("$ty", "$ty"), ("$ty", "f64"), ("$ty", "i64"), ("f64", "$ty"), ("i64", "$ty")}
+    if seen == want:
+        rule.ok("vector / vector, vector / float, vector / integer, float / vector and integer / vector are all registered", file=TYPES_RS, line=ln)
+    else:
+        rule.bad("vecop|forms", "register_binary! registers the operand forms %s; expected %s" % (sorted(seen), sorted(want)), "%s:%s" % (TYPES_RS, ln))
+    if "register_binary!($engine,$ty,stringify!($base_fn),$base_fn)" in body:
+        rule.ok("named helpers (min, max) are registered under their own name", file=TYPES_RS, line=ln)
+    else:
+        rule.bad("vecop|named", "the short form of register_binary! must register $base_fn under stringify!($base_fn)", "%s:%s" % (TYPES_RS, ln))
+    allb = tok(mdefs["register_all"]["tokens"])
+    for op, f_, tr in (("+", "add", "Add"), ("*", "mul", "Mul"), ("-", "sub", "Sub"), ("/", "div", "Div")):
+        if 'register_binary!($engine,$ty,"%s",%s,%s);' % (op, f_, tr) in allb:
+            rule.ok("`%s` on vectors is %s" % (op, f_), file=TYPES_RS, line=mdefs["register_all"]["ln"])
+        else:
+            rule.bad("vecop|table|%s" % f_, "register_all! must register \"%s\" as %s (std::ops::%s)" % (op, f_, tr), "%s:%s" % (TYPES_RS, mdefs["register_all"]["ln"]))
+    for f_ in ("min", "max"):
+        if "register_binary!($engine,$ty,%s);" % f_ in allb:
+            rule.ok("`%s` on vectors" % f_, file=TYPES_RS)
+        else:
+            rule.bad("vecop|table|%s" % f_, "register_all! must register %s" % f_, TYPES_RS)
+    for f_ in ("sqrt", "abs"):
+        if "register_unary!($engine,$ty,%s);" % f_ in allb:
+            rule.ok("`%s` on vectors" % f_, file=TYPES_RS)
+        else:
+            rule.bad("vecop|table|%s" % f_, "register_all! must register %s" % f_, TYPES_RS)
+    if re.search(r'\$engine\.register_fn\("-",\|(?P<v>\w+):\$ty\|-(?P=v)\);', allb):
+        rule.ok("unary minus negates the vector", file=TYPES_RS)
+    else:
+        rule.bad("vecop|neg", "unary `-` on a vector must be `-v`", TYPES_RS)
+    ub = tok(mdefs["register_unary"]["tokens"])
+    if re.search(r"\$engine\.register_fn\(stringify!\(\$base_fn\),\|(?P<a>\w+):\$ty\|->\$ty\{(?P=a)\.\$base_fn\(\)\}\);", ub):
+        rule.ok("register_unary! applies the namesake method", file=TYPES_RS)
+    else:
+        rule.bad("vecop|unary", "register_unary! must register |a| a.$base_fn() under stringify!($base_fn)", TYPES_RS)
+
+
+def r_leftover_arguments(rule, root=None):
+    """positional constructors: an argument whose type no field takes is an error, never dropped"""
+    fn = A.find_fn(SHAPES, "from_enum_map", root=root)
+    ps = [A.binding_name(p["pat"]) for p in fn["sig"]["inputs"] if "pat" in p]
+    vs = ps[1] if len(ps) > 1 else "vs"
+    body = A.inline_lets_deep(fn["body"])
+    # the last field loop, then the leftover test
+    loops = [f for f in A.find(fn["body"], "For") if "shape.fields" in str(A.ftxt(f["iter"])) and "put" in str(A.ftxt(f["body"]))]
+    if len(loops) != 1:
+        rule.lost("the field loop of from_enum_map")
+        return
+    tests = []
+    for c in A.find(fn["body"], "MethodCall"):
+        if c["method"] in ("find", "any", "position", "find_map") and c["args"] and c.get("ln", 0) > loops[0].get("le", loops[0]["ln"]):
+            src = str(A.ftxt(c["recv"]))
+            if src.startswith(vs + "."):
+                tests.append(c)
+    if len(tests) != 1:
+        rule.lost("the leftover-argument test after the field loop of from_enum_map (`vs.iter().find(|(_k, v)| v.is_some())`)")
+        return
+    c = tests[0]
+    clo = A.strip(c["args"][0])
+    pred = None
+    if clo.get("k") == "Closure":
+        ps_ = clo.get("inputs", clo.get("params", []))
+        names = []
+        for p in ps_:
+            q = p
+            while q.get("k") in ("PRef", "PType"):
+                q = q["pat"]
+            names = [A.binding_name(x) for x in q.get("elems", [])] if q.get("k") == "PTuple" else [A.binding_name(q)]
+        v = names[-1] if names else None
+        pred = str(A.ftxt(A.unblock(clo["body"])))
+        okp = v is not None and pred in ("%s.is_some()" % v, "(%s.is_some())" % v, "!%s.is_none()" % v, "(!%s.is_none())" % v)
+    else:
+        okp = str(A.ftxt(clo)) in ("Option::is_some",)
+        pred = str(A.ftxt(clo))
+    if okp:
+        rule.ok("every value still unclaimed after the fields were filled is reported, whatever its type", file=SHAPES, line=c["ln"])
+    else:
+        rule.bad("leftover|predicate", "from_enum_map looks for unconsumed positional arguments with `%s`; any value left over (`v.is_some()`, nothing else) must be an error - a narrower test silently drops arguments like the 2 in `x.scale(2)`" % pred, A.where(SHAPES, c))
+    # and it is an error
+    encl = [i for i in A.find(fn["body"], "If") if any(n is c for n in A.walk(i["cond"]))]
+    errs = [r_ for i in encl for r_ in A.find(i["then"], "Return") if r_.get("e") is not None and str(A.ftxt(r_["e"])).startswith("Err(")]
+    if errs:
+        rule.ok("a leftover argument returns an error", file=SHAPES, line=c["ln"])
+    else:
+        rule.bad("leftover|error", "a leftover positional argument must return Err(..)", A.where(SHAPES, c))
+
 def run(ctx):
     r = ctx.rule("R1", "operators and functions are registered to their namesake, both operand orders, operands in source order; comparisons rejected", 69)
     ctx.guarded(r, r1_operator_tables)
@@ -974,3 +1094,7 @@ def run(ctx):
     ctx.guarded(r, r9_constructor_collisions)
     r = ctx.rule("R10", "variadic reducers convert each argument to one tree (an array argument is one operand)", 1)
     ctx.guarded(r, r_reducer_arguments)
+    r = ctx.rule("R11", "script-side vector arithmetic: every operand form applies the operator in source order (a number is splatted on the side it was written on); the operator table maps + * - / min max sqrt abs and unary minus to their namesakes", 17)
+    ctx.guarded(r, r_vector_operators)
+    r = ctx.rule("R12", "positional constructors report every argument no field takes (nothing is silently dropped)", 2)
+    ctx.guarded(r, r_leftover_arguments)
